@@ -1865,7 +1865,7 @@ def describe_callable(v, depth=0):
 
 
 GENERIC_PRELUDE = (
-    "from dataclasses import dataclass\n"
+    "from dataclasses import dataclass, field\n"
     "from decimal import Decimal\n"
     "from typing import Annotated, Any, Dict, Generic, List, NamedTuple, Optional, Tuple, TypedDict, TypeVar, TypeVarTuple, Union, Unpack\n"
     "from generics_family_aux import ItemT\n"
@@ -2027,6 +2027,30 @@ def generics_family(tier, seed):
                                      ("Fixed", [], [("IntRec", ["str", "Decimal"])], {})],
                          "queries": ["IntRec[str, bool]", "IntRec[Decimal]", "IntRec", "Mid[int, bytes]", "Mid[Decimal]",
                                      "Deep[int]", "Deep[bytes, str]", "Fixed", "Rec"]},
+        # a BARE generic base: its variables get the documented implicit parameters (the bound, the union of the constraints), also
+        # when the child is generic itself and happens to re-use the same variables
+        "bare_base_bounded": {"classes": [("P", ["B", "C", "N"], [], {"b": "B", "cs": "List[C]", "n": "N"}),
+                                          ("Child", [], [("P", [])], {"own": "str"}),
+                                          ("GChild", ["T"], [("P", [])], {"t": "T"})],
+                              "queries": ["Child", "GChild[int]", "GChild[Decimal]", "P"]},
+        "bare_base_bounded_attrs": {"kind": "attrs", "classes": [("P", ["B", "C", "N"], [], {"b": "B", "cs": "List[C]", "n": "N"}),
+                                                                 ("Child", [], [("P", [])], {"own": "str"})],
+                                    "queries": ["Child", "P"]},
+        "bare_base_bounded_td": {"kind": "typeddict", "classes": [("P", ["B", "C", "N"], [], {"b": "B", "cs": "List[C]", "n": "N"}),
+                                                                  ("Child", [], [("P", [])], {"own": "str"})],
+                                 "queries": ["Child"]},
+        "bare_base_same_vars": {"classes": [("Env", ["T", "N"], [], {"payload": "T", "attempts": "List[N]"}),
+                                            ("Reply", ["T", "N"], [("Env", [])], {"own": "T", "n_own": "N"})],
+                                "queries": ["Reply[str, bool]", "Reply[Decimal, int]"]},
+        "bare_base_same_vars_attrs": {"kind": "attrs", "classes": [("Env", ["T", "N"], [], {"payload": "T", "attempts": "List[N]"}),
+                                                                   ("Reply", ["T", "N"], [("Env", [])], {"own": "T"})],
+                                      "queries": ["Reply[str, bool]"]},
+        # an output-only member (init=False) typed with a variable, inherited through a parametrised base: loader and dumper of one
+        # retort are requested one after the other (both orders)
+        "out_only_member": {"classes": [("Tr", ["T"], [], {"value": "T", "seen": "Optional[T] = field(init=False, default=None)"}),
+                                        ("TrDate", [], [("Tr", ["Decimal"])], {"note": "str"}),
+                                        ("TrG", ["U"], [("Tr", ["List[U]"])], {})],
+                            "queries": ["TrDate", "TrG[int]", "Tr[str]"]},
         "two_bases": {"classes": [("A", ["T"], [], {"a": "T"}), ("M", ["U"], [], {"m": "U"}),
                                   ("B", ["T", "U"], [("A", ["T"]), ("M", ["U"])], {"own": "Dict[T, U]"})],
                       "queries": ["B[int, str]", "B[str, float]"]},
@@ -2134,6 +2158,17 @@ def generics_family(tier, seed):
             rec = {"kind": "generics", "spec": sname, "classes": spec["classes"], "query": q}
             try:
                 tp = eval(q, mod.__dict__)      # builds the parametrised alias only
+                # the same two products requested from ONE retort, in both orders (errors only; the bindings are audited below)
+                seq = {}
+                for order in (("loader", "dumper"), ("dumper", "loader")):
+                    shared = Retort(recipe=[CodeGenAccumulator()])
+                    for what in order:
+                        try:
+                            getattr(shared, "get_" + what)(tp)
+                            seq["->".join(order) + ":" + what] = None
+                        except Exception as e:  # noqa: BLE001
+                            seq["->".join(order) + ":" + what] = type(e).__name__
+                rec["sequential"] = seq
                 for what in ("loader", "dumper"):
                     acc = CodeGenAccumulator()
                     retort = Retort(recipe=[acc])
